@@ -8,7 +8,7 @@ from .. import compile_common as CC
 
 ID = "C05"
 PROPS_FILE = "Props/C05.v"
-PROPS_EXTRA = ["Props/C05sym.v"]
+PROPS_EXTRA = ["Props/C05sym.v", "Props/C05e2e.v"]   # C05e2e: drawn exactly once, composed with C02/C04e2e (Proofs/GlueOnce.v)
 GEN_DEPS = ["GenUnits"]
 ALLOWED_AXIOMS: List[str] = []
 THEOREMS = {
@@ -18,6 +18,7 @@ THEOREMS = {
     "C05_conservation_resolve": "full",
     "C05_example_accepted": "example",
     "C05_nodes_exactly_once": "full",
+    "C05e2e_tree_tds_once": "full", "C05e2e_td_values_of_text": "full", "C05e2e_compiled_written_once": "full", "C05_drawn_exactly_once": "full", "C05e2e_example": "example",
 }
 TRUSTED = [
     "Coq 8.16.1 kernel (coqc; vm_compute for correspondence only)",
